@@ -307,9 +307,13 @@ def repo_functions(gb, jdir):
         for el in data:
             if "symbolTable" in el:
                 for name, s in el["symbolTable"].items():
-                    loc = s.get("location", {}).get("namedSub", {})
-                    f = loc.get("file", {}).get("id", "")
-                    wd = loc.get("working_directory", {}).get("id", "")
+                    loc = s.get("location", {})
+                    if "namedSub" in loc:   # irep form
+                        f = loc["namedSub"].get("file", {}).get("id", "")
+                        wd = loc["namedSub"].get("working_directory", {}).get("id", "")
+                    else:                   # plain form (cbmc 6.x --json-ui)
+                        f = loc.get("file", "")
+                        wd = loc.get("workingDirectory", "")
                     t = s.get("type", {}).get("id")
                     if t == "code" and s.get("value", {}).get("id") not in (None, "nil"):
                         full = f if f.startswith("/") else os.path.join(wd, f)
